@@ -547,7 +547,7 @@ def derive_tables(rng, faces, shuffle_edges=True):
 
 def ugrid(rng, *, w=None, h=None, start_index=None, fill=None, transposed=None, supplied=None,
           edge_dim_declared=None, coords_as_coords=None, face_coords=None, mesh=None, variety=True,
-          invalid=None, bare_zero_based=(), extra_width=0, stale_attrs=(), phantom_edge_dim=False, mesh_var_dim=False, node_dtypes=None):
+          invalid=None, bare_zero_based=(), extra_width=0, stale_attrs=(), phantom_edge_dim=False, mesh_var_dim=False, node_dtypes=None, placeholder_node=False):
     # stale_attrs: mesh attributes naming optional connectivity variables that are not in the file (emsarray documents this case)
     # phantom_edge_dim: an edge_dimension attribute although nothing is stored on edges (xarray drops unused dimensions)
     # mesh_var_dim: the mesh topology dummy variable has a length-one dimension (`int mesh(one)`), as some writers make it
@@ -565,6 +565,9 @@ def ugrid(rng, *, w=None, h=None, start_index=None, fill=None, transposed=None, 
             f[1], f[2] = f[2], f[1]
             faces = list(faces)
             faces[k] = f
+    if placeholder_node:
+        # one more row on the node dimension than the faces use, without coordinates (a placeholder some writers leave)
+        nodes = list(nodes) + [(float('nan'), float('nan'))]
     nn, nf = len(nodes), len(faces)
     maxn = max(len(f) for f in faces) + extra_width
     uniform = all(len(f) == maxn for f in faces)
@@ -700,7 +703,7 @@ def ugrid(rng, *, w=None, h=None, start_index=None, fill=None, transposed=None, 
             'label': f'ugrid nf={nf} nn={nn} maxn={maxn} si={start_index}{"(bare 0: " + ",".join(sorted(bare_zero_based)) + ")" if bare_zero_based else ""} fill={fill} T={transposed} '
                      f'sup={sorted(supplied)} edim={"edge_dimension" in mesh_attrs} coords={coords_as_coords}'
                      + (f' stale={sorted(stale_attrs)}' if stale_attrs else '') + (' phantom-edge-dim' if phantom_edge_dim else '')
-                     + (' mesh(one)' if mesh_var_dim else ''),
+                     + (' mesh(one)' if mesh_var_dim else '') + (' plus a node without coordinates' if placeholder_node else ''),
             'kinds': kinds, 'kind_order': ['node', 'face'] + (['edge'] if has_edge_dim else [])}
     return DS('ugrid', ds, spec)
 
